@@ -133,8 +133,63 @@ def in_subtree(root: AwareASTNode, x: AwareASTNode) -> bool:
     return any(x is y for y in L.ref_nodes(root))
 
 
+def overlap(a: AwareASTNode, b: AwareASTNode) -> bool:
+    """some node object lies in both trees (a detached container still references its former children, which may meanwhile live elsewhere)"""
+    ids = {id(y) for y in L.ref_nodes(a)}
+    return any(id(y) in ids for y in L.ref_nodes(b))
+
+
+def root_of(n: AwareASTNode) -> AwareASTNode:
+    guard = 0
+    while n.parent is not None and guard < 60:
+        n, guard = n.parent, guard + 1
+    return n
+
+
+def stale_flag(*incoming: AwareASTNode | None) -> str:
+    """'+stale-content-id' when a detached node handed to the operation (or one of its descendants) carries a content_id that is not the one of an
+    equal tree built now (its content changed while it was detached) -- the characterisation of KF-C18-stale-content-id, evaluated before the call"""
+    for x in incoming:
+        if x is None:
+            continue
+        for y in L.ref_nodes(x):
+            try:
+                if not attached(y) and y.content_id != rebuild_cid(y):
+                    return "+stale-content-id"
+            except Exception:
+                return ""
+    return ""
+
+
+def twin_flag(*incoming: AwareASTNode | None) -> str:
+    """'+reattaches-id-twin' when an existing node handed to the operation (or one of its descendants) is detached while its id is registered for
+    another object -- the characterisation of KF-C18-id-twin, evaluated before the call"""
+    seen: dict[str, int] = {}
+    for x in incoming:
+        if x is None:
+            continue
+        for y in L.ref_nodes(x):
+            reg = AwareASTNode._nodes.get(y.id)
+            if not attached(y) and reg is not None and reg is not y:
+                return "+reattaches-id-twin" + stale_flag(*incoming)
+            # two distinct objects with one id among the nodes the operation puts into one tree (detached twins of each other, or an id taken over
+            # through replace_with): the second one cannot be registered
+            if seen.setdefault(y.id, id(y)) != id(y):
+                return "+reattaches-id-twin" + stale_flag(*incoming)
+    return stale_flag(*incoming)
+
+
+LAST: dict[str, list] = {"incoming": []}      # the existing nodes handed to the operation chosen last (replacement, new children)
+
+
 def ops_for(universe: list[AwareASTNode], rnd: random.Random):
+    r = _ops_for(universe, rnd)
+    return r
+
+
+def _ops_for(universe: list[AwareASTNode], rnd: random.Random):
     """Yields one admissible (name, category, thunk, new_nodes_fn) choice."""
+    LAST["incoming"] = []
     roots_or_detached = [n for n in universe if n.parent is None]
     att = [n for n in universe if attached(n)]
     det = [n for n in universe if not attached(n)]
@@ -145,21 +200,24 @@ def ops_for(universe: list[AwareASTNode], rnd: random.Random):
         return "construct-leaf", "fresh", lambda: [L.LgLeaf(v, origin=L.NO_ORIGIN)]
     if choice == "unary" and roots_or_detached:
         c = rnd.choice(roots_or_detached)
-        o = rnd.choice([None] + [x for x in roots_or_detached if x is not c and not in_subtree(c, x) and not in_subtree(x, c)])
-        cat = ("att" if attached(c) else "det") + ("+" + ("att" if attached(o) else "det") if o is not None else "")
+        o = rnd.choice([None] + [x for x in roots_or_detached if x is not c and not overlap(c, x)])
+        cat = ("att" if attached(c) else "det") + ("+" + ("att" if attached(o) else "det") if o is not None else "") + twin_flag(c, o)
+        LAST["incoming"] = [x for x in (c, o) if x is not None]
         return "construct-unary", cat, lambda: [L.LgUnary(c, o, origin=L.NO_ORIGIN)]
     if choice == "list" and roots_or_detached:
         picks = []
         for x in rnd.sample(roots_or_detached, min(len(roots_or_detached), rnd.randrange(1, 4))):
-            if all(not in_subtree(p, x) and not in_subtree(x, p) for p in picks):
+            if all(not overlap(p, x) for p in picks):
                 picks.append(x)
         k = rnd.randrange(len(picks) + 1)
-        cat = "".join("a" if attached(x) else "d" for x in picks)
+        cat = "".join("a" if attached(x) else "d" for x in picks) + twin_flag(*picks)
+        LAST["incoming"] = list(picks)
         return "construct-list", cat, lambda: [L.LgList(tuple(picks[:k]), list(picks[k:]), origin=L.NO_ORIGIN)]
     if choice == "attach" and det:
         n = rnd.choice([x for x in det if x.parent is None] or det)
         if n.parent is None:
-            return "attach", "detached-root", lambda: (n.attach(), [])[1]
+            LAST["incoming"] = [n]
+            return "attach", "detached-root" + twin_flag(n), lambda: (n.attach(), [])[1]
     if choice == "detach" and att:
         n = rnd.choice(att)
         return "detach", "root" if n.parent is None else "subtree", lambda: (n.detach(), [])[1]
@@ -174,9 +232,11 @@ def ops_for(universe: list[AwareASTNode], rnd: random.Random):
     unaries = [n for n in universe if isinstance(n, L.LgUnary)]
     if choice == "replace_child" and unaries:
         n = rnd.choice(unaries)
-        cands = [x for x in roots_or_detached if not in_subtree(n, x) and not in_subtree(x, n)]
+        # the new node is n with `opt` exchanged: the incoming tree must share no object with what stays (n's child subtree) nor with the tree around n
+        cands = [x for x in roots_or_detached if not overlap(root_of(n), x)]
         new = rnd.choice(cands + [None])
-        cat = ("att" if attached(n) else "det") + ":" + ("none" if new is None else ("att" if attached(new) else "det"))
+        cat = ("att" if attached(n) else "det") + ":" + ("none" if new is None else ("att" if attached(new) else "det")) + twin_flag(new, *[c for c, f, i in L.ref_children(n) if f != "opt"])
+        LAST["incoming"] = [x for x in (new,) if x is not None]
         return "replace-opt-child", cat, lambda: [n.replace(opt=new)]
     if choice in ("replace_with", "replace_with_none") and universe:
         n = rnd.choice([x for x in universe if attached(x)] or universe)
@@ -185,10 +245,15 @@ def ops_for(universe: list[AwareASTNode], rnd: random.Random):
             if ok:
                 return "replace_with-none", "seq" if n.parent_index is not None else "optional", lambda: (n.replace_with(None), [])[1]
             return None
-        cands = [x for x in roots_or_detached if x is not n and not in_subtree(n, x) and not in_subtree(x, n)]
+        cands = [x for x in roots_or_detached if x is not n and not overlap(root_of(n), x)]
         if cands:
             new = rnd.choice(cands)
-            cat = ("root" if n.parent is None else "child") + ":" + ("att" if attached(new) else "det") + ("-inner" if L.ref_children(new) else "-leaf")
+            cat = ("root" if n.parent is None else "child") + ":" + ("att" if attached(new) else "det") + ("-inner" if L.ref_children(new) else "-leaf") + twin_flag(new)
+            if any(x is not new and x.id == n.id for x in L.ref_nodes(new)):
+                # the replacement's subtree holds a node with the receiver's id (e.g. a detached duplicate of the receiver): replace_with gives the
+                # replacement that very id -- characterisation of KF-C18-id-flip-inside
+                cat += "+receiver-id-inside"
+            LAST["incoming"] = [new]
             return "replace_with", cat, lambda: (n.replace_with(new), [])[1]
     if choice == "duplicate" and universe:
         n = rnd.choice(universe)
@@ -207,12 +272,13 @@ def ops_for(universe: list[AwareASTNode], rnd: random.Random):
     inner_kids = [n for n in universe if n.parent is not None and attached(n)]
     if choice == "parent_collision" and inner_kids:
         c = rnd.choice(inner_kids)
-        first = rnd.choice([None] + [x for x in roots_or_detached if not in_subtree(x, c) and not in_subtree(c, x)])
+        first = rnd.choice([None] + [x for x in roots_or_detached if not overlap(x, c)])
+        LAST["incoming"] = [x for x in (first, c) if x is not None]
         return "reject:parent-collision", "first-child" if first is None else "later-child", \
             lambda: [L.LgUnary(c, origin=L.NO_ORIGIN)] if first is None else [L.LgUnary(first, c, origin=L.NO_ORIGIN)]
     if choice == "replace_with_attached_sub" and inner_kids and att:
         new = rnd.choice(inner_kids)
-        n = rnd.choice([x for x in att if x is not new and not in_subtree(x, new) and not in_subtree(new, x)] or [None])
+        n = rnd.choice([x for x in att if x is not new and not overlap(root_of(x), new)] or [None])
         if n is not None:
             return "reject:replace_with-has-parent", "x", lambda: (n.replace_with(new), [])[1]
     return None
@@ -226,13 +292,31 @@ def id_twin_present(universe: list[AwareASTNode]) -> bool:
 def classify(sig: tuple, twin: bool) -> str | None:
     """Open findings of the legacy module (deprecated; recorded, not repaired) -- see known_findings.json."""
     op, cat, clause = sig
-    if clause.startswith("C19:") and (op.startswith("construct-") or op == "reject:parent-collision") and \
-            ("ASTNodeParentCollisionError" in clause or "ASTNodeRegistryCollisionError" in clause):
+    where = ""
+    if "@" in clause:
+        clause, where = clause.split("@", 1)
+    if op == "replace_with" and clause.startswith("C19:ASTNodeReplaceWithError:") and where == "incoming-only" and \
+            not set(clause.split(":")[2].split("+")) <= {"id", "original_id"}:
+        # attaching the replacement failed half-way: what _attach_inner had re-parented / registered inside the replacement's own tree stays (the receiver's
+        # tree is restored) -- the constructor finding, reached through new._attach()
         return "KF-C19-ctor-partial"
-    if clause == "C18:child-detached" and twin and op in ("replace_with", "replace-opt-child", "construct-unary", "construct-list", "attach"):
+    if clause.startswith("C19:") and (op.startswith("construct-") or op in ("reject:parent-collision", "attach", "replace-opt-child", "replace-value")) and \
+            ("ASTNodeParentCollisionError" in clause or "ASTNodeRegistryCollisionError" in clause) and where in ("incoming-only", ""):
+        # _attach_inner (constructor, attach) re-parents / registers what it visited before it meets the collision
+        return "KF-C19-ctor-partial"
+    if clause.startswith("C18:") and "+reattaches-id-twin" in cat and op in ("replace_with", "replace-opt-child", "construct-unary", "construct-list", "attach"):
         return "KF-C18-id-twin"
-    if op == "replace_with" and clause == "C19:ASTNodeReplaceWithError:id+original_id":
+    if op == "replace_with" and clause in ("C19:ASTNodeReplaceWithError:id+original_id", "C19:ASTNodeReplaceWithError:original_id", "C19:ASTNodeReplaceWithError:id"):
+        # the rejected replacement keeps the id fields replace_with wrote before attaching it (only these two fields of the replacement differ;
+        # when it already had the receiver's id only original_id shows)
         return "KF-C19-replace-with-new-id"
+    if op == "replace_with" and "+receiver-id-inside" in cat and clause.startswith("C18:"):
+        return "KF-C18-id-flip-inside"
+    if op == "replace_with" and "+receiver-id-inside" in cat and clause.startswith("C19:ASTNodeRegistryCollisionError"):
+        # the rollback's self._attach() collides with the receiver's twin that the failed attach of the replacement has registered
+        return "KF-C19-replace-with-rollback-blocked"
+    if clause == "C18:content-id-not-propagated" and "+stale-content-id" in cat:
+        return "KF-C18-stale-content-id"
     return None
 
 
@@ -288,10 +372,14 @@ def run_history(seed: int, length: int, timeout_s: int = 3) -> dict | None:
         else:
             after = snapshot(universe)
             if after != before:
-                diff = next(i for i, (a, b) in enumerate(zip(before, after)) if a != b)
+                diffs = [i for i, (a, b) in enumerate(zip(before, after)) if a != b]
+                diff = diffs[0]
                 fields = ["attached", "parent", "parent_field", "parent_index", "value", "children", "id", "original_id", "content_id"]
                 which = [fields[k] for k in range(9) if before[diff][k] != after[diff][k]]
-                return {"sig": (name, cat, "C19:" + outcome + ":" + "+".join(which)), "log": list(log), "seed": seed, "step": step}
+                # where the changes are: only inside the trees that were handed to the rejected operation (what a failed _attach_inner leaves behind), or elsewhere
+                inc = {id(y) for x in LAST["incoming"] for y in L.ref_nodes(x)}
+                where = "@incoming-only" if all(id(universe[i]) in inc for i in diffs) else "@elsewhere"
+                return {"sig": (name, cat, "C19:" + outcome + ":" + "+".join(which) + where), "log": list(log), "seed": seed, "step": step}
     return None
 
 
